@@ -15,6 +15,21 @@ def stochastic(rng, n):
     return np.array(rows)
 
 
+def random_channel2(cirq, rng, keyed):
+    """Two-qubit channels with genuinely complex Kraus operators, optionally recording the chosen operator under a key."""
+    p = rng.choice([0.25, 0.5, 0.4])
+    S = np.diag([1, 1j])
+    Y = np.array([[0, -1j], [1j, 0]])
+    sq = cirq.unitary(cirq.SQRT_ISWAP)
+    rz = np.kron(cirq.unitary(cirq.rz(0.7)), cirq.unitary(cirq.H))
+    key = rng.choice(['k', 'j']) if keyed else None
+    return rng.choice([
+        cirq.MixedUnitaryChannel([(1 - p, np.eye(4)), (p, np.kron(Y, S))], key=key),
+        cirq.KrausChannel([math.sqrt(1 - p) * np.eye(4), math.sqrt(p) * sq], key=key),
+        cirq.MixedUnitaryChannel([(p, rz), (1 - p, sq)], key=key),
+    ] + ([cirq.depolarize(p, n_qubits=2)] if not keyed else []))
+
+
 def random_channel(cirq, rng):
     p = rng.choice([0.1, 0.25, 0.5, 0.3])
     g = rng.choice([0.2, 0.36, 0.5])
@@ -63,9 +78,18 @@ def random_mcircuit(cirq, rng, wires=None, qudits=False, mid=True, cc=True, chan
             digits += k
             continue
         if channels and r > 0.8:
-            w = rng.choice([w for w in range(n) if dims[w] == 2] or [None])
+            ws2 = [w for w in range(n) if dims[w] == 2]
+            if len(ws2) >= 2 and rng.random() < 0.4:
+                a, b = rng.sample(ws2, 2)
+                c.append(random_channel2(cirq, rng, keyed=rng.random() < 0.4).on(qs[a], qs[b]))
+                continue
+            w = rng.choice(ws2 or [None])
             if w is not None:
-                c.append(random_channel(cirq, rng).on(qs[w]))
+                if rng.random() < 0.25:
+                    g = rng.choice([0.2, 0.36])
+                    c.append(cirq.KrausChannel([np.array([[1, 0], [0, math.sqrt(1 - g)]]), np.array([[0, math.sqrt(g)], [0, 0]])], key='k').on(qs[w]))
+                else:
+                    c.append(random_channel(cirq, rng).on(qs[w]))
                 continue
         if resets and not clifford and r > 0.93:
             w = rng.randrange(n)
